@@ -556,3 +556,6 @@ def run(chk):
 
     chk.guard("O19.5", "Translator.construct", c19.construct_rules, chk)
     chk.guard("O5.4", "<config modules>", c05.narrow_try, chk)
+    from . import c18
+
+    chk.guard("O18.10", "COBalDLoader", c18.loader_overrides_keep_valid_documents, chk)
